@@ -132,6 +132,9 @@ EvalcallClauses(x, ev) ==
     IF ev.exc # "" THEN <<<<"C13", "C13:evaluator-raises">>>>
     ELSE
     (IF \E k \in DOMAIN ev.after : ~ev.after[k].has THEN <<<<"C13", "C13:not-evaluated">>>> ELSE <<>>)
+    \* a problem object that has evaluated nothing yet has no fitness for anybody (whatever address it lives at)
+    \o (IF ev.fresh_problem /\ \E k \in DOMAIN ev.inds : ev.inds[k].had
+        THEN <<<<"C13", "C13:fitness-of-another-problem">>>> ELSE <<>>)
     \o (IF \E k \in DOMAIN ev.after : ev.after[k].has /\
               ev.after[k].comps # (IF ev.inds[k].had THEN ev.inds[k].hadcomps ELSE TableFit(ev.inds[k].v))
         THEN <<<<"C13", "C13:fitness#ff(program)">>>> ELSE <<>>)
